@@ -157,7 +157,10 @@ def conditions(tier):
     if tier == "thorough":
         tok += [("indep3", [1, 1, 1]), ("fork3", [0, 1, 1]), ("chain3", [1, 0, 1]), ("diamond4", [0, 1, 1, 0])]
     for sh, mask in tok:
-        add({"name": f"token/{sh}-{''.join(map(str, mask))}", "func": "scenario", "shard": {"shape": sh, "K": K, "token": mask}, "timeout": tmo}, sh)
+        # three independent jobs under one token: 4 choice points (one shard of
+        # the 5-point version exceeded its 3000 s budget in the end-to-end run)
+        k = 4 if sh == "indep3" else K
+        add({"name": f"token/{sh}-{''.join(map(str, mask))}", "func": "scenario", "shard": {"shape": sh, "K": k, "token": mask}, "timeout": tmo}, sh)
     conds.append({"name": "plain/chain2/NEG-inverted-oracle", "func": "scenario", "shard": {"shape": "chain2", "K": K, "invert": 1}, "timeout": tmo, "expect": "refute"})
     for sh, idx in (("one", 0), ("chain2", 0), ("chain2", 1), ("indep2", 1)):
         add({"name": f"resubmit/{sh}-{idx}", "func": "scenario", "shard": {"shape": sh, "K": K, "resubmit": idx}, "timeout": tmo}, sh)
